@@ -21,3 +21,11 @@ void h_tls_protocol_name(void)
 	if (n) { CANARY("known"); }
 	CANARY("returned");
 }
+//@job name=tls_handshake_type_name props=C11,C06 enforce=tls_handshake_type_name timeout=300
+void h_tls_handshake_type_name(void)
+{
+	INPUT(tt_in, T);
+	const char *n = tls_handshake_type_name(T.type);
+	if (n) { CANARY("known"); }
+	CANARY("returned");
+}
